@@ -197,6 +197,15 @@ def body_big_and_aliasing(case):
                 c = np.asarray(f(xin))
                 require(not np.shares_memory(c, xin), f"{fn}: the result shares memory with the input array")
     labels.add("aliasing_probed")
+    # (b') the caller's numpy error state raises on divide / invalid / overflow: same results, no exception
+    if n <= 70001:
+        with np.errstate(divide="raise", invalid="raise", over="raise"):
+            for mod in (m1, m2):
+                with cut(f"conversions of {n} elements under np.errstate(divide/invalid/over='raise')"):
+                    Pe = np.asarray(mod.us_std_atm_pressure_from_altitude(z.copy()))
+                    Ze = np.asarray(mod.us_std_atm_altitude_from_pressure(P1.copy()))
+                require(Pe.tobytes() == P1.tobytes() and Ze.tobytes() == Z1.tobytes(), "the conversions return other values when the caller's numpy error state raises on divide / invalid / overflow")
+        labels.add("caller_errstate_raise")
     # (c) memory representations of the same values: N-D arrays whose axes are permuted in memory, non-native byte
     # order, read-only arrays and broadcast views give the values of the plain array, element by element
     if n >= 6:
